@@ -91,6 +91,14 @@ def candidates(seed, around=None):
              "// splicer begin", "// splicer end", "splicer begin a", "! splicer begin c  extra", "! splicer end c",
              "\tcode\t", "// splicer begin b", "// splicer end b",
              "    // splicer begin a", "    // splicer end a", "#ifdef X", "  y;"]
+    # whole blocks in every order: nested tags followed by file-level tags, deeper after shallower, siblings
+    tags = ["a.b", "c", "a.c", "d.e.f", "g", "d.e.h"]
+    for n in (2, 3):
+        for perm in itertools.permutations(tags, n):
+            lines = []
+            for i, t in enumerate(perm):
+                lines += ["// splicer begin " + t, "  body %d of %s  " % (i, t), "// splicer end " + t, ""]
+            yield {"lines": lines}
     for n in range(1, 4):
         for tup in itertools.product(atoms, repeat=n):
             yield {"lines": list(tup)}
